@@ -18,7 +18,7 @@ std::string same(const TasmanianSparseGrid &a, const ObserveOpts &oa, const Tasm
 }
 
 void check_C11(Src &s, Ctx &ctx) {
-    SpecOpts so; so.min_outs = 0; so.max_outs = 3; so.cap = cfg().tier ? 600 : 200;
+    SpecOpts so; so.min_outs = 0; so.max_outs = 3; so.cap = cfg().tier ? 300 : 200;
     GridState st; st.cap = so.cap; st.ctx = &ctx;
     st.spec = decode_spec(s, so); st.vm.decode(s);
     if (s.chance(2, 3) && st.spec.outs < 2) st.spec.outs = 2 + s.pick(2);   // range copies need several outputs
